@@ -62,6 +62,8 @@ POOL = [
     ("neg_zero", {"x": -0.0}),
     ("float32_overflow", {"f": 1e40}),
     ("float32_inexact", {"f": 0.1}),
+    ("float32_rounds_to_inf", {"f": 3.4028235677973366e38}),     # the smallest double that rounds to infinity
+    ("float32_largest", {"f": 3.4028235677973362e38}),           # the largest double that still rounds to FLT_MAX
     ("int_into_double", {"x": 3}),
     ("bigint_into_double", {"x": 2 ** 53 + 1}),
     ("str_into_long", {"v": "3"}),
@@ -192,8 +194,14 @@ def representable(row: dict) -> bool:
                 return False
             if isinstance(v, int) and float(v) != v:
                 return False
-            if t == "float" and isinstance(v, float) and math.isfinite(v) and abs(v) > 3.4028235677973366e38:
-                return False
+            if t == "float" and isinstance(v, float) and math.isfinite(v):
+                # representable = rounds to a FINITE 32-bit float (derived, not a copied constant)
+                import struct
+                try:
+                    if not math.isfinite(struct.unpack("f", struct.pack("f", v))[0]):
+                        return False
+                except OverflowError:
+                    return False
     if "tag" not in row:
         return False
     return True
